@@ -173,15 +173,29 @@ func tokText(t, v string) string {
 	if t == "quoted" {
 		return `"` + v + `"`
 	}
+	if t == "word" {
+		return escapeSpecials(v)
+	}
 	return v
 }
 
 func tokVal(kind string, i int) string {
 	switch kind {
 	case "word":
+		if i%3 == 1 {
+			return fmt.Sprintf("w*%d", i) // typed w\*1: an escaped wildcard
+		}
 		return fmt.Sprintf("w%d", i)
 	case "quoted":
-		return fmt.Sprintf("q %d", i)
+		switch i % 4 {
+		case 1:
+			return fmt.Sprintf("q*%d", i)
+		case 2:
+			return fmt.Sprintf("q %d", i)
+		case 3:
+			return fmt.Sprintf("/q%d/", i)
+		}
+		return fmt.Sprintf("%d", i)
 	case "wild":
 		return fmt.Sprintf("w%d*", i)
 	case "star":
